@@ -780,6 +780,9 @@ def orc_c19(ctx, op, req, impl, model, spec):
             return "through a serde format that is not human readable the value is not its canonical string / does not round-trip: %s (expected %s)" % (impl, model)
         return None
     if op == "serto":
+        if impl == "err":
+            # the literal parsed (a parse error is reported with its variant), serde_json::to_string returned Err
+            return "a well-formed identifier does not serialise at all (the serialiser returned an error)"
         if not impl.startswith("ok"):
             return None
         text = impl.split(" ")[1]
@@ -905,41 +908,41 @@ def S(names, ops):
 
 PROPS = {
     "C01": Prop("C01",
-                S(["tokens"], "li,loc,ext") + S(["wf", "near", "raw"], "li,loc,ext,lican,loccan,listr,locstr,conv,idem,liparts,locparts")
+                [("sweep", "li,loc,lican,loccan,ext,hist"), ("specials", "lang,script,region,variant,li,loc"), ("abb", "max,min,limax,limin,dir")] + S(["tokens"], "li,loc,ext") + S(["wf", "near", "raw"], "li,loc,ext,lican,loccan,listr,locstr,conv,idem,liparts,locparts")
                 + S(["subtag"], "lang,script,region,variant") + [("hist", None), ("parts", None), ("match", None)]
                 + S(["triples"], "max,min,dir,limax,limin") + [("glue_li", None), ("glue_misc", None), ("serde", None)],
                 None, proj_outcome, orc_c01, design_ref="4/C01"),
-    "C02": Prop("C02", S(["tokens", "wf", "near", "raw"], "li,lican,listr") + [("glue_li", None)],
+    "C02": Prop("C02", [("sweep", "li,lican,listr"), ("specials", "li,lican,listr")] + S(["tokens", "wf", "near", "raw"], "li,lican,listr") + [("glue_li", None)],
                 {"li", "lican", "listr", "liiter", "liiterp"}, proj_c02, orc_c02,
                 design_ref="4/C02"),
-    "C03": Prop("C03", S(["tokens", "wf", "near", "raw"], "loc,locstr,ext,substr ext") + [("glue_misc", None)],
+    "C03": Prop("C03", [("sweep", "loc,locstr,ext"), ("specials", "loc,locstr")] + S(["tokens", "wf", "near", "raw"], "loc,locstr,ext,substr ext") + [("glue_misc", None)],
                 {"loc", "locstr", "ext", "exttype", "substr"}, proj_c03, orc_c03,
                 design_ref="4/C03"),
-    "C04": Prop("C04", S(["wf", "near"], "li,lican,loc,loccan") + S(["tokens"], "loc,loccan") + [("hist", None), ("parts", None)],
+    "C04": Prop("C04", [("sweep", "li,lican,loc,loccan,hist"), ("specials", "li,loc")] + S(["wf", "near"], "li,lican,loc,loccan") + S(["tokens"], "loc,loccan") + [("hist", None), ("parts", None)],
                 {"li", "lican", "loc", "loccan", "hist", "fromparts"}, proj_str_only, orc_c04, design_ref="4/C04"),
-    "C05": Prop("C05", S(["wf", "near"], "li,loc,ext,idem") + S(["tokens"], "loc,ext") + S(["subtag"], "lang,script,region,variant")
+    "C05": Prop("C05", [("sweep", "li,loc,idem,ext,hist"), ("specials", "lang,script,region,variant,li,loc")] + S(["wf", "near"], "li,loc,ext,idem") + S(["tokens"], "loc,ext") + S(["subtag"], "lang,script,region,variant")
                 + [("hist", None)],
                 {"li", "loc", "ext", "idem", "hist", "lang", "script", "region", "variant"}, proj_rt, orc_c05, design_ref="4/C05"),
-    "C06": Prop("C06", S(["triples"], "max,limax"), {"max", "limax"}, proj_full, orc_spec_equal, design_ref="4/C06"),
-    "C07": Prop("C07", S(["triples"], "max,limax,loc,locmax"), {"max", "limax", "loc", "locmax"}, proj_full, orc_c07,
+    "C06": Prop("C06", [("abb", "max,limax")] + S(["triples"], "max,limax"), {"max", "limax"}, proj_full, orc_spec_equal, design_ref="4/C06"),
+    "C07": Prop("C07", [("abb", "max,limax,locmax")] + S(["triples"], "max,limax,loc,locmax"), {"max", "limax", "loc", "locmax"}, proj_full, orc_c07,
                 design_ref="4/C07"),
-    "C08": Prop("C08", S(["triples"], "min,limin,liminmax,locmin"), {"min", "limin", "liminmax", "locmin"}, proj_full, orc_c08,
+    "C08": Prop("C08", [("abb", "min,limin,liminmax,locmin")] + S(["triples"], "min,limin,liminmax,locmin"), {"min", "limin", "liminmax", "locmin"}, proj_full, orc_c08,
                 design_ref="4/C08"),
-    "C09": Prop("C09", [("pairs", None)], {"pair", "extpair", "lipair"}, proj_pair, orc_c09, design_ref="4/C09"),
-    "C10": Prop("C10", [("hist", None)], {"hist"}, proj_c10, orc_c10, design_ref="4/C10"),
+    "C09": Prop("C09", [("sweep", "pair")] + [("pairs", None)], {"pair", "extpair", "lipair"}, proj_pair, orc_c09, design_ref="4/C09"),
+    "C10": Prop("C10", [("sweep", "hist")] + [("hist", None)], {"hist"}, proj_c10, orc_c10, design_ref="4/C10"),
     "C11": Prop("C11", [("match", None), ("macvals", None)], {"match", "locmatch", "langmatch", "matchx", "locmatchx", "matchr", "macrel"},
                 proj_full, orc_c11, design_ref="4/C11"),
-    "C12": Prop("C12", [("rel", None), ("glue_misc", None), ("macvals", None)], {"rel", "eqstr", "subeq", "route", "macrel"}, proj_full, orc_c12,
+    "C12": Prop("C12", [("sweep", "eqstr,rel"), ("specials", "eqstr,rel")] + [("rel", None), ("glue_misc", None), ("macvals", None)], {"rel", "eqstr", "subeq", "route", "macrel"}, proj_full, orc_c12,
                 design_ref="4/C12"),
-    "C13": Prop("C13", S(["tokens"], "conv") + S(["wf", "near", "raw"], "conv,convx") + [("macvals", None)], {"conv", "convx", "macrel"}, proj_c13, orc_c13,
+    "C13": Prop("C13", [("sweep", "conv"), ("specials", "conv")] + S(["tokens"], "conv") + S(["wf", "near", "raw"], "conv,convx") + [("macvals", None)], {"conv", "convx", "macrel"}, proj_c13, orc_c13,
                 design_ref="4/C13"),
-    "C14": Prop("C14", [("layoutnames", None)] + S(["triples"], "dir,dirv"), {"dir", "locdir", "dirv"}, proj_full, orc_c14, design_ref="4/C14",
+    "C14": Prop("C14", [("abb", "dir")] + [("layoutnames", None)] + S(["triples"], "dir,dirv"), {"dir", "locdir", "dirv"}, proj_full, orc_c14, design_ref="4/C14",
                 configs=[("likely", ALL_FEATURES), ("nolikely", ("macros", "serde"))]),
     "C16": Prop("C16", [("macros", None)], {"mac"}, proj_c16, orc_c16, design_ref="4/C16"),
     "C18": Prop("C18", [("layoutnames", None), ("tablemisc", None)] + S(["triples"], "max,dir"), {"max", "dir", "cldrversion"}, proj_full, orc_c18,
                 design_ref="4/C18"),
-    "C19": Prop("C19", [("serde", None), ("hist", None)], {"serto", "serfrom", "hist", "sernhr"}, proj_c19, orc_c19, design_ref="4/C19"),
-    "C20": Prop("C20", S(["tokens"], "loc") + S(["wf", "near"], "li,listr,loc,locstr,lican,loccan,conv,liparts,locparts") + S(["subtag"], "lang,script,region,variant")
+    "C19": Prop("C19", [("sweep", "serto,serfrom")] + [("serde", None), ("hist", None)], {"serto", "serfrom", "hist", "sernhr"}, proj_c19, orc_c19, design_ref="4/C19"),
+    "C20": Prop("C20", [("sweep", "li,loc,listr,locstr,lican,loccan,eqstr,hist,pair"), ("specials", "lang,li,loc,eqstr")] + S(["tokens"], "loc") + S(["wf", "near"], "li,listr,loc,locstr,lican,loccan,conv,liparts,locparts") + S(["subtag"], "lang,script,region,variant")
                 + [("hist", None), ("match", None), ("rel", None), ("parts", None), ("pairs", None), ("layoutnames", None)],
                 None, proj_c20, orc_c20, design_ref="4/C20",
                 gen_env={"GEN_LIKELY": "0"},     # histories without maximize/minimize: those calls exist only with the feature
@@ -948,11 +951,11 @@ PROPS = {
                 thorough_configs=[("none", ()), ("likely", ("likely",)), ("serde", ("serde",)), ("macros", ("macros",)),
                                   ("likely-serde", ("likely", "serde")), ("likely-macros", ("likely", "macros")),
                                   ("macros-serde", ("macros", "serde")), ("all", ALL_FEATURES)]),
-    "C15": Prop("C15", S(["subtag"], "lang,script,region,variant,langstr,substr script,substr region,substr variant")
+    "C15": Prop("C15", [("specials", "lang,script,region,variant,langstr")] + S(["subtag"], "lang,script,region,variant,langstr,substr script,substr region,substr variant")
                 + [("langmisc", None), ("glue_misc", None)],
                 {"lang", "script", "region", "variant", "langstr", "langopt", "langdefault", "rawref", "subeq", "substr"}, proj_c15, orc_c15,
                 design_ref="4/C15"),
-    "C17": Prop("C17", [("parts", None), ("glue_misc", None), ("hist", None)], {"liparts", "locparts", "fromparts", "raw", "rawref", "hist"}, proj_c17, orc_c17,
+    "C17": Prop("C17", [("sweep", "liparts,locparts,hist")] + [("parts", None), ("glue_misc", None), ("hist", None)], {"liparts", "locparts", "fromparts", "raw", "rawref", "hist"}, proj_c17, orc_c17,
                 design_ref="4/C17"),
 }
 
@@ -998,9 +1001,244 @@ def setup():
 DICT = {"tokens": [], "ints": []}     # source literals the baseline tree did not have (checklib/srcdict.py), set per run
 
 
-def extra_stream(name, tier, seed):
+def _variant_name(i, n):
+    """the i-th of a family of distinct variants of length n (5..8), in increasing order"""
+    a = "abcdefghijklmnopqrstuvwxyz"
+    return (a[(i // 26) % 26] + a[i % 26] + "variantx"[: n - 2])[:n]
+
+
+def sweep_identifiers():
+    """well-formed, canonical language identifiers (text) for EVERY canonical length that a shape can have up to 140 bytes
+    (shapes: language of 2 / 3 / 5 / 8 letters x script or none x alphabetic / numeric / no region; the rest is filled with
+    distinct sorted variants), and for every COUNT 0..40 of variants: no internal buffer size, inline capacity or count bound
+    of a rewrite falls between the sampled sizes"""
+    out = []
+    for lang in ("en", "fil", "abcde", "abcdefgh"):
+        for script in ("", "Latn"):
+            for region in ("", "US", "419"):
+                base = "-".join(x for x in (lang, script, region) if x)
+                for L in range(len(base), 141):
+                    r = L - len(base)
+                    if r == 0:
+                        out.append(base)
+                        continue
+                    if r < 5:
+                        continue
+                    # r = sum of (1 + len) with len in 4..8; at most one 4-letter variant (digit first: sorts first)
+                    parts = []
+                    n9 = r // 9
+                    rem = r - 9 * n9
+                    lens = [8] * n9
+                    if rem:
+                        if rem >= 5:
+                            lens.append(rem - 1)
+                        else:
+                            # take from one 9: 9 + rem = a + b with a, b in 5..9
+                            if not lens:
+                                continue
+                            lens.pop()
+                            t = 9 + rem
+                            a_ = max(5, t - 9)
+                            lens += [a_ - 1, t - a_ - 1]
+                    four = [x for x in lens if x == 4]
+                    if len(four) > 1:
+                        continue
+                    vs = []
+                    if four:
+                        vs.append("1abc")
+                    for i, n in enumerate(sorted(x for x in lens if x != 4)):
+                        vs.append(_variant_name(i, n))
+                    vs_sorted = sorted(vs)
+                    s_ = base + "-" + "-".join(vs_sorted)
+                    if len(s_) == L:
+                        out.append(s_)
+    for k in range(0, 41):
+        out.append("-".join(["sl"] + sorted(_variant_name(i, 5 + i % 4) for i in range(k))))
+        out.append("-".join(["und", "Cyrl", "001"] + sorted(_variant_name(i, 8) for i in range(k))))
+    return out
+
+
+def sweep_extension_strings():
+    """`-u-` / `-t-` / `-x-` bodies with every count 0..40 of attributes, keywords, tfields, tags (canonical, sorted)"""
+    a = "abcdefghijklmnopqrstuvwxyz"
+    out = []
+    for k in range(1, 41):
+        attrs = sorted("at%s%s" % (a[i // 26], a[i % 26]) for i in range(k))
+        keys = sorted(a[i // 26] + a[i % 26] for i in range(k))
+        tkeys = sorted(a[i % 26] + "0123456789"[i // 26] for i in range(k))
+        tags = sorted("t%s%s" % (a[i // 26], a[i % 26]) for i in range(k))
+        out.append("u-" + "-".join(attrs))
+        out.append("u-" + "-".join(x + "-val" + x for x in keys))
+        out.append("t-" + "-".join(x + "-val" + x for x in tkeys))
+        out.append("x-" + "-".join(tags))
+        if k % 5 == 0:
+            out.append("t-" + "-".join(x + "-val" + x for x in tkeys) + "-u-" + "-".join(attrs) + "-" + "-".join(x + "-val" + x for x in keys) + "-x-" + "-".join(tags))
+    return out
+
+
+def cldr_language_defaults():
+    """[(language, script, region)] of the language-only keys of the bundled likelySubtags.json"""
+    d = json.load(open(os.path.join(R.REPO, "unic-langid-impl", "data", "likelySubtags.json")))["supplemental"]["likelySubtags"]
+    out = []
+    for k, v in d.items():
+        if "-" not in k and k != "und":
+            p = v.split("-")
+            if len(p) == 3:
+                out.append((k, p[1], p[2]))
+    return out
+
+
+def extra_stream(name, tier, seed, ops=None):
     """streams produced by the checker itself"""
     dwords = list(DICT["tokens"])
+    hx = lambda t: R.hexs(t.encode())
+    if name == "sweep":
+        # every length / every count (sweep_identifiers), as a language identifier and, with extensions of every count, as a locale
+        ids = sweep_identifiers()
+        exts = sweep_extension_strings()
+        oplist = (ops or "li,loc").split(",")
+        lines = []
+        locs = list(ids[::3]) + ["en-" + e for e in exts] + ["sr-Cyrl-RS-" + e for e in exts[::4]] + [ids[i * 7 % len(ids)] + "-" + e for i, e in enumerate(exts[::3])]
+        for op in oplist:
+            if op in ("li", "lican", "listr", "liparts", "serto"):
+                lines += ["%s %s" % (op, hx(t)) for t in ids]
+            elif op in ("loc", "loccan", "locstr", "locparts", "idem", "conv"):
+                lines += ["%s %s" % (op, hx(t)) for t in locs]
+            elif op == "ext":
+                lines += ["ext %s" % hx("-" + e) for e in exts] + ["ext %s" % hx(e) for e in exts]
+            elif op == "serfrom":
+                lines += ["serfrom %s" % hx('"%s"' % t) for t in ids]
+            elif op == "eqstr":
+                for t in ids:
+                    lines.append("eqstr %s %s" % (hx(t), hx(t)))
+                    lines.append("eqstr %s %s" % (hx(t.upper()), hx(t)))
+                    if len(t) > 3:
+                        lines.append("eqstr %s %s" % (hx(t), hx(t[:-1])))
+                        lines.append("eqstr %s %s" % (hx(t), hx(t[:64])))
+                        lines.append("eqstr %s %s" % (hx(t), hx(t + "a")))
+            elif op == "rel":
+                for i in range(0, len(ids) - 1, 2):
+                    lines.append("rel %s %s" % (hx(ids[i]), hx(ids[i + 1])))
+                    lines.append("rel %s %s" % (hx(ids[i]), hx(ids[i].upper().replace("-", "_"))))
+            elif op == "pair":
+                # unordered parts repeated: k subtags that are m distinct variants / attributes, against the plain spelling
+                a = "abcdefghijklmnopqrstuvwxyz"
+                for m in (1, 2, 3, 7):
+                    vs = [_variant_name(i, 5 + i % 4) for i in range(m)]
+                    ats = ["at%s%s" % (a[i // 26], a[i % 26]) for i in range(m)]
+                    for k in range(m, 41):
+                        rep = [vs[i % m] for i in range(k)]
+                        lines.append("pair %s %s" % (hx("ca-ES-" + "-".join(rep)), hx("ca-ES-" + "-".join(sorted(vs)))))
+                        lines.append("pair %s %s" % (hx("ca-" + "-".join(reversed(rep)) + "-u-ca-gregory"), hx("ca-" + "-".join(vs) + "-u-ca-gregory")))
+                        lines.append("lipair %s %s" % (hx("ca-ES-" + "-".join(rep)), hx("ca-ES-" + "-".join(vs))))
+                        repa = [ats[i % m] for i in range(k)]
+                        lines.append("pair %s %s" % (hx("en-u-" + "-".join(repa) + "-nu-latn"), hx("en-u-" + "-".join(ats) + "-nu-latn")))
+                        lines.append("extpair %s %s" % (hx("-u-" + "-".join(repa)), hx("-u-" + "-".join(reversed(ats)))))
+                for k in range(2, 41):
+                    vs = [_variant_name(i, 5 + i % 4) for i in range(k)]
+                    lines.append("pair %s %s" % (hx("sl-" + "-".join(vs)), hx("sl-" + "-".join(reversed(vs)))))
+                    lines.append("pair %s %s" % (hx("sl-" + "-".join(vs) + "-" + "-".join(vs)), hx("sl-" + "-".join(vs))))
+            elif op == "hist":
+                # a list of every size 0..24, then an operation on an element that IS in it (first / middle / last / each),
+                # on one that is not, and the same through the other kinds of lists
+                a = "abcdefghijklmnopqrstuvwxyz"
+                hb = lambda t: R.hexs(t.encode())
+                for k in range(0, 25):
+                    ats = ["at%s%s" % (a[i // 26], a[i % 26]) for i in range(k)]
+                    tags = ["t%s%s" % (a[i // 26], a[i % 26]) for i in range(k)]
+                    keys = [a[i // 26] + a[i % 26] for i in range(k)]
+                    tkeys = [a[i % 26] + "0123456789"[i // 26] for i in range(k)]
+                    vs = [_variant_name(i, 5 + i % 4) for i in range(k)]
+                    inits = {
+                        "a": "en" + ("-u-" + "-".join(ats) if ats else ""),
+                        "t": "en" + ("-x-" + "-".join(tags) if tags else ""),
+                        "k": "en" + ("-u-" + "-".join(x + "-v" + x + "x" for x in keys) if keys else ""),
+                        "f": "en" + ("-t-" + "-".join(x + "-v" + x + "x" for x in tkeys) if tkeys else ""),
+                        "v": "en" + ("-" + "-".join(vs) if vs else ""),
+                    }
+                    idxs = sorted(set([0, k // 2, k - 1] + list(range(0, k, 3)))) if k else []
+                    for i in idxs:
+                        lines.append("hist %s sa:%s ha:%s ra:%s ha:%s ra:%s" % (hb(inits["a"]), hb(ats[i]), hb(ats[i]), hb(ats[i]), hb(ats[i]), hb(ats[i])))
+                        lines.append("hist %s ra:%s sa:%s" % (hb(inits["a"]), hb(ats[i]), hb(ats[i])))
+                        lines.append("hist %s at:%s ht:%s rt:%s ht:%s rt:%s" % (hb(inits["t"]), hb(tags[i]), hb(tags[i]), hb(tags[i]), hb(tags[i]), hb(tags[i])))
+                        lines.append("hist %s rt:%s at:%s" % (hb(inits["t"]), hb(tags[i]), hb(tags[i])))
+                        lines.append("hist %s kw:%s sk:%s:%s kw:%s rk:%s rk:%s" % (hb(inits["k"]), hb(keys[i]), hb(keys[i]), hb("newval"), hb(keys[i]), hb(keys[i]), hb(keys[i])))
+                        lines.append("hist %s tf:%s stf:%s:%s tf:%s rtf:%s rtf:%s" % (hb(inits["f"]), hb(tkeys[i]), hb(tkeys[i]), hb("newval"), hb(tkeys[i]), hb(tkeys[i]), hb(tkeys[i])))
+                        lines.append("hist %s hv:%s" % (hb(inits["v"]), hb(vs[i])))
+                    lines.append("hist %s sa:%s ra:%s sa:%s sa:%s" % (hb(inits["a"]), hb("zzznew"), hb("zzznew"), hb("aaanew"), hb("aaanew")))
+                    lines.append("hist %s at:%s rt:%s at:%s at:%s" % (hb(inits["t"]), hb("zzz"), hb("zzz"), hb("aaa"), hb("aaa")))
+                    if vs:
+                        lines.append("hist %s sv:%s sv:%s sv:%s cv" % (hb("en-US"), ",".join(hb(x) for x in vs), ",".join(hb(x) for x in reversed(vs + vs)), ",".join(hb(x) for x in [vs[0]] * k)))
+                        lines.append("hist %s sv:%s" % (hb(inits["v"]), ",".join(hb(x) for x in [vs[-1]] * k)))
+        return lines
+    if name == "specials":
+        # the words the code treats specially (`und`, `true`, `root`, the source's own new literals), in every case pattern, alone and
+        # EXTENDED by 1..5 letters / digits on either side (a longer subtag that merely starts or ends like a special word is an
+        # ordinary subtag), as a subtag of each kind and as the language / a variant / a value inside an identifier
+        import itertools
+        words = ["und", "true", "root", "mul", "zxx"] + [w.decode("latin-1") for w in dwords if 1 <= len(w) <= 8 and w.isalnum()]
+        forms = []
+        for w in words:
+            cases = {w, w.upper(), w.title(), w[:-1] + w[-1].upper(), w[0].upper() + w[1:]}
+            for c in sorted(cases):
+                forms.append(c)
+                for suf in ("e", "ef", "efi", "efin", "efine", "1", "12", "er9", "x"):
+                    if len(c) + len(suf) <= 9:
+                        forms.append(c + suf)
+                        forms.append(suf + c)
+            forms.append(w[:-1])
+        forms = sorted(set(forms))
+        oplist = (ops or "lang,script,region,variant").split(",")
+        lines = []
+        for f in forms:
+            for op in oplist:
+                if op in ("lang", "script", "region", "variant", "langstr"):
+                    lines.append("%s %s" % (op, hx(f)))
+                elif op in ("li", "lican", "listr", "loc", "loccan", "locstr", "conv", "idem", "liparts", "locparts"):
+                    for t in (f, f + "-Latn-PL", "en-" + f, "en-Latn-US-" + f, f + "-" + f):
+                        lines.append("%s %s" % (op, hx(t)))
+                    if op in ("loc", "loccan", "locstr", "conv", "idem", "locparts"):
+                        for t in ("en-u-" + f, "en-u-ca-" + f, "en-t-" + f, "en-t-h0-" + f, "en-x-" + f, f + "-u-ca-" + f + "-x-" + f):
+                            lines.append("%s %s" % (op, hx(t)))
+                elif op == "eqstr":
+                    for t in (f, f + "-Latn-PL"):
+                        lines.append("eqstr %s %s" % (hx(t), hx(t)))
+                        lines.append("eqstr %s %s" % (hx(t), hx(t.lower())))
+                        lines.append("eqstr %s %s" % (hx(t), hx("und" + t[3:])))
+                elif op == "rel":
+                    for g in ("und", "undef", "en"):
+                        lines.append("rel %s %s" % (hx(f + "-Latn-PL"), hx(g + "-Latn-PL")))
+                elif op == "match":
+                    for g in ("und", "undef", f.lower()):
+                        lines.append("match %s %s" % (hx(f + "-Latn-PL"), hx(g + "-Latn-PL")))
+        return lines
+    if name == "abb":
+        # a question about a language the tables know (A), then the SAME question about a language they do not know, twice (B, B):
+        # what was remembered about A (a memo keyed by the language, an index left behind by a look-up that failed) must not
+        # answer for B, the first time or the second
+        oplist = (ops or "max,min").split(",")
+        defaults = cldr_language_defaults()
+        step = 1 if tier == "thorough" else 9
+        pick = defaults[::step] + [d for d in defaults if d[0] in ("en", "zh", "sr", "az", "uz", "pa", "he", "ar", "ur", "ms", "ku", "ks", "sd", "ug", "ha")]
+        unknowns = ["tlh", "xzz", "qaa"]
+        lines = []
+        k = 0
+        for (l, sc, rg) in pick:
+            u = unknowns[k % len(unknowns)]
+            k += 1
+            for op in oplist:
+                if op in ("max", "min"):
+                    for (s_, r_) in ((sc, rg), (None, rg), (sc, None), (None, None)):
+                        f = lambda x: hx(x) if x else "~"
+                        lines.append("%s %s %s %s" % (op, hx(l), f(s_), f(r_)))
+                        lines.append("%s %s %s %s" % (op, hx(u), f(s_), f(r_)))
+                        lines.append("%s %s %s %s" % (op, hx(u), f(s_), f(r_)))
+                elif op in ("limax", "limin", "liminmax", "dir", "locmax", "locmin"):
+                    for shape in ("%s-%s-%s" % ("%s", sc, rg), "%s-" + rg, "%s-" + sc, "%s"):
+                        lines.append("%s %s" % (op, hx(shape % l)))
+                        lines.append("%s %s" % (op, hx(shape % u)))
+                        lines.append("%s %s" % (op, hx(shape % u)))
+        return lines
     if name == "langmisc":
         lines = ["langdefault", "langopt ~"]
         for w in [b"en", b"UND", b"und", b"e", b"", b"abcd", b"EN", b"abcde", b"root"] + dwords:
@@ -1100,7 +1338,7 @@ def gen_requests(harness, cfg, tier, seed, workdir):
     for stream, ops in cfg.streams:
         p = os.path.join(workdir, "req_%s.txt" % stream)
         try:
-            lines = extra_stream(stream, tier, seed)
+            lines = extra_stream(stream, tier, seed, ops)
             open(p, "w").write("\n".join(lines) + "\n")
         except KeyError:
             env = dict(os.environ, GEN_DICT=dict_path)
